@@ -1665,6 +1665,25 @@ NCvario(NC *handle, int varid, const long *start, const long *edges, void *value
         }
     }
 
+    /* find max contiguous, check sanity of edges.  This is done before NCcoordck(), which
+     * on a write already extends a record variable up to the start record, and for every
+     * fixed dimension (NCvcmaxcontig stops looking at the first partial one), so that a
+     * request reaching outside the variable is refused before anything is written. */
+    edp0 = NCvcmaxcontig(handle, vp, start, edges);
+    if (edp0 == NULL)
+        return -1;
+    {
+        unsigned ii;
+
+        for (ii = IS_RECVAR(vp) ? 1 : 0; ii < vp->assoc->count; ii++) {
+            if (start[ii] < 0 || edges[ii] < 0 || (unsigned long)start[ii] > vp->shape[ii] ||
+                (unsigned long)edges[ii] > vp->shape[ii] - (unsigned long)start[ii]) {
+                NCadvise(NC_EINVAL, "Invalid edge length %d", edges[ii]);
+                return -1;
+            }
+        }
+    }
+
     if (!NCcoordck(handle, vp, start))
         return -1;
 
@@ -1673,10 +1692,6 @@ NCvario(NC *handle, int varid, const long *start, const long *edges, void *value
         return NCsimplerecio(handle, vp, start, edges, values);
     }
 
-    /* find max contiguous, check sanity of edges */
-    edp0 = NCvcmaxcontig(handle, vp, start, edges);
-    if (edp0 == NULL)
-        return -1;
 
     /* now accumulate max count for a single io operation */
     edp     = edges + vp->assoc->count - 1; /* count is > 0 at this point */
